@@ -3,6 +3,7 @@ mod common;
 mod dump;
 mod gen;
 mod c01;
+mod c02;
 mod c05;
 mod c06;
 mod zipx;
@@ -16,6 +17,7 @@ fn main() {
     let args = common::Args::parse();
     match args.cmd.as_str() {
         "c01" => c01::run(&args),
+        "c02" => c02::run(&args),
         "c05" => c05::run(&args),
         "c06" => c06::run(&args),
         "c17" => c17::run(&args),
